@@ -289,11 +289,20 @@ InAction ==
              IF a % 2 = 0 THEN "dkim_first" ELSE "spf_first", m, m, p, spol, pct, lk[1], lk[2])
 
 (* (d) From-header shapes without exactly one author address *)
+(* "one" author address; none ("nofield", "emptygroup"); several: a list with *)
+(* display names ("twoaddr"), a plain list ("plainlist"), three addresses     *)
+(* ("threeaddr": from, from2, from), the same address twice ("dupaddr"), a   *)
+(* group ("grouptwo"), two From fields ("twofields").  The second address is *)
+(* in another domain or in the SAME domain (in either spelling): several      *)
+(* authors are several authors whatever their domains are.                    *)
+SeveralShapes == {"twoaddr", "plainlist", "threeaddr", "dupaddr", "twofields", "grouptwo"}
 InShape ==
-  \E sh \in {"one", "nofield", "emptygroup", "twoaddr", "twofields", "grouptwo"},
-     pr \in {<<"victim.co.uk", "attacker.co.uk">>, <<"attacker.co.uk", "victim.co.uk">>},
-     pol \in {"reject", "none"}, up \in BOOLEAN :
-    in = Row("shape", sh, Spell(pr[1], up), IF sh \in {"one", "nofield", "emptygroup"} THEN "" ELSE Spell(pr[2], up),
+  \E sh \in {"one", "nofield", "emptygroup"} \cup SeveralShapes,
+     pr \in {<<"victim.co.uk", "attacker.co.uk">>, <<"attacker.co.uk", "victim.co.uk">>,
+             <<"victim.co.uk", "victim.co.uk">>},
+     pol \in {"reject", "none"}, up \in BOOLEAN, up2 \in BOOLEAN :
+    in = Row("shape", sh, Spell(pr[1], up),
+             IF sh \in SeveralShapes \ {"dupaddr"} THEN Spell(pr[2], up2) ELSE "",
              <<[v |-> "pass", d |-> "victim.co.uk"]>>, Spf("pass", "victim.co.uk", "other.org"),
              "dkim_first", "r", "r", pol, "absent", "absent", "record", "nxdomain")
 
